@@ -84,6 +84,8 @@ def run_property(prop: str, tier: str, repo: str, overlay=None, *, write_evidenc
     if not os.environ.get("FORMULINT_RAW_ONLY"):
         from .normalize import Normalizer
         views.append(("normalised", Project(repo, overlay, normalizer=Normalizer(project))))
+        if os.environ.get("FORMULINT_NORMALISED_ONLY"):  # diagnostic: what do the rules make of the normal form alone?
+            views = views[1:]
     known = load_known()
     mod = rules_pkg.load(prop)
     ctx = Ctx(prop, project, tier)
